@@ -60,11 +60,40 @@ class CallGraph:
             self._scan(fn)
         self._resolve_attr_functions()
         self._resolve_param_calls()
+        self._positionalise()
         for fn, sites in self.sites.items():
             for s in sites:
                 self.stats[s.kind] = self.stats.get(s.kind, 0) + 1
                 for c in s.callees:
                     self.callers.setdefault(c, []).append(s)
+
+    def _positionalise(self) -> None:
+        """C20 of the canonicalisation (needs resolved callees): `f(a, b, flag=True)` -> `f(a, b, True)` when every callee of the site takes `flag` as the next
+        positional parameter.  Keyword arguments are moved only while they follow the parameter order without a gap, so the order in which the arguments
+        are evaluated does not change; rules that look at `call.args[i]` then see one spelling."""
+        for fn, sites in self.sites.items():
+            for s in sites:
+                call = s.node
+                if not isinstance(call, ast.Call) or not call.keywords or not s.callees or s.ext or any(isinstance(a, ast.Starred) for a in call.args) \
+                        or any(k.arg is None for k in call.keywords):
+                    continue
+                orders = []
+                for c in s.callees:
+                    pos = list(c.pos_params)
+                    if c.self_name is not None and (s.kind in ("method", "cha", "ctor", "super", "attrfn") or (s.kind == "direct" and c.is_classmethod)):
+                        pos = pos[1:]
+                    if c.node.args.vararg is not None:
+                        pos = pos[: len(call.args)]  # nothing may be appended in front of *args
+                    orders.append(pos)
+                if any(o != orders[0] for o in orders):
+                    continue
+                pos = orders[0]
+                moved = False
+                while call.keywords and len(call.args) < len(pos) and call.keywords[0].arg == pos[len(call.args)]:
+                    call.args.append(call.keywords.pop(0).value)
+                    moved = True
+                if moved:
+                    self.stats["positionalised"] = self.stats.get("positionalised", 0) + 1
 
     # ------------------------------------------------------------------ helpers
     def class_by_fullname(self, fullname: str) -> Optional[ClassInfo]:
